@@ -1466,4 +1466,10 @@ impl<TNodeId, TVal: Eq> PendingNode<TNodeId, TVal> {
     pub fn verif_key(&self) -> &Key<TNodeId> {
         &self.node.key
     }
+
+    /// The instant at which the pending node becomes eligible for insertion (verification hook,
+    /// read-only).
+    pub fn verif_replace_at(&self) -> std::time::Instant {
+        self.replace
+    }
 }
